@@ -614,6 +614,32 @@ class CoordMatcher(WrappingMatcher):
                ((termcount - 1) / termcount))
         return sqr
 
+    def _child_quality(self, quality):
+        # Inverse of the bound _sqr(childscore, termcount): the child score
+        # up to which no document can score above ``quality`` here. None if
+        # the coordinated score does not depend on the child score.
+        termcount = self._termcount
+        scale = self._scale
+        if termcount <= 1 or termcount == scale:
+            return None
+        return (quality * termcount / (termcount - 1)
+                - (termcount - 1) / (termcount - scale) ** 2)
+
+    def replace(self, minquality=0):
+        # The threshold is in coordinated units; the child prunes in its own
+        q = self._child_quality(minquality) if minquality else 0
+        r = self.child.replace(q or 0)
+        if r is not self.child:
+            return self._replacement(r)
+        else:
+            return self
+
+    def skip_to_quality(self, minquality):
+        q = self._child_quality(minquality)
+        if q is None:
+            return 0
+        return self.child.skip_to_quality(q)
+
     def max_quality(self):
         return self._sqr(self.child.max_quality(), self._termcount)
 
